@@ -675,3 +675,80 @@ func HarnessC03Rules1() { c03Run(12, 24, false) }
 func HarnessC03Rules2() { c03Run(24, len(c03Rules), false) }
 func HarnessC03Rules3() { c03Run(0, 18, true) }
 func HarnessC03Rules4() { c03Run(18, len(c03Rules), true) }
+
+// ---------------------------------------------------------------------------------------------------- C13
+var c13Programs = []string{
+	`type Shape union { i32, str };
+type P struct { .X: i32, .Y: i64 };
+type E enum { A, B };
+fn mk(a: i32) -> P { return { .X = a, .Y = 2 } as P; }
+fn res(a: i32) -> str ! i32 { if a == 0 { return "z"!; } return a; }
+fn (p: &'P) inc() { p.X += 1; }
+`,
+	`fn t(a: i32, b: []i32) -> i32 {
+    let m := { "k" => 1, "j" => 2 } as map[str]i32;
+    let r: i32 = res(a) catch e { return -1; } 0;
+    for i, v in b { if v > 3 { continue; } else { break; } }
+    match a { 1 => { return 1; } _ => { } }
+    let f := fn(z: i32) -> i32 { return z + 1; };
+    let q: i32? = none;
+    return f(r) + (q ?? 0) + b[0];
+}
+fn res(a: i32) -> str ! i32 { return a; }
+`,
+}
+
+var c13Replacements = []string{"", ";", ",", "{", "}", "(", ")", "5", "x", "=>", ".", "union", "\"", "fn", "[", "]", ":", "="}
+
+// c13Tokens: ONE token of a well-formed program is deleted or replaced by another token (every token position x 18
+// replacements): the real front end must come back within the step bound (no hang), must not panic, must report at
+// least one error whenever it does not accept, and every diagnostic must point inside the file.
+func c13Tokens(shard, shards int) {
+	src := c13Programs[verifrt.Choice("program", len(c13Programs))]
+	bag := diagnostics.NewDiagnosticBag("")
+	toks := lexer.New("m.fer", src, bag).Tokenize(false)
+	per := (len(toks) - 1 + shards - 1) / shards
+	g := verifrt.Choice("token", per)*shards + shard
+	if g >= len(toks)-1 {
+		return
+	}
+	rep := c13Replacements[verifrt.Choice("replacement", len(c13Replacements))]
+	mut := src[:toks[g].Start.Index] + " " + rep + " " + src[toks[g].End.Index:]
+	if !verifrt.Symbolic() {
+		println("VERIF-SOURCE-BEGIN\n" + mut + "VERIF-SOURCE-END")
+	}
+	verifrt.StepBudget(6000000, "the front end does not terminate within 6,000,000 interpreted instructions on a malformed program (about 40x the cost of the well-formed one)")
+	o := Run(mut)
+	verifrt.StepBudget(0, "")
+	lines := strings.Count(mut, "\n") + 1
+	for _, d := range o.Ctx.Diagnostics.Diagnostics() {
+		for _, l := range d.Labels {
+			if l.Location == nil || l.Location.Start == nil {
+				continue
+			}
+			verifrt.Assert(l.Location.Start.Line >= 1 && l.Location.Start.Line <= lines+1 && l.Location.Start.Index <= len(mut), "a diagnostic points outside the input file")
+		}
+	}
+}
+
+func HarnessC13Tokens0() { c13Tokens(0, 6) }
+func HarnessC13Tokens1() { c13Tokens(1, 6) }
+func HarnessC13Tokens2() { c13Tokens(2, 6) }
+func HarnessC13Tokens3() { c13Tokens(3, 6) }
+func HarnessC13Tokens4() { c13Tokens(4, 6) }
+func HarnessC13Tokens5() { c13Tokens(5, 6) }
+
+// HarnessC13Bytes: one byte of a short program is replaced by a SYMBOLIC byte (any ASCII value except a digit): the
+// front end terminates within the bound without panicking.
+func HarnessC13Bytes() {
+	src := "fn t(a: i32) -> i32 { let s: str = \"ab\"; if a > a { return a / a; } return -a; } // c\n"
+	pos := verifrt.Choice("pos", len(src))
+	c := verifrt.String("c", 1)
+	// ASCII, not a digit (a symbolic digit inside a number literal makes the literal's value symbolic, which the
+	// interpreter's big.Int model cannot print) - digits are covered by the token replacement "5" above
+	verifrt.Assume(c[0] < 0x80 && !(c[0] >= '0' && c[0] <= '9'))
+	mut := src[:pos] + c + src[pos+1:]
+	verifrt.StepBudget(6000000, "the front end does not terminate within the step bound when one byte of the source is arbitrary")
+	Run(mut)
+	verifrt.StepBudget(0, "")
+}
